@@ -26,6 +26,7 @@ import (
 	"go/token"
 	"go/types"
 	"os"
+	"path/filepath"
 	"sort"
 	"strings"
 
@@ -49,7 +50,11 @@ type SpecFn struct {
 	OutFields []string `json:"out_fields,omitempty"`
 	// NilGuard: every *big.Int input x that hangs off a parameter gets a companion input x_nonnil : bool; calling a
 	// method on x is guarded by it (nil dereference = Panic), `x != nil` / `x == nil` read it.
-	NilGuard bool `json:"nil_guard,omitempty"`
+	// Group: the generated file the definition goes to: "" = Pure.v, "X" = PureX.v (which imports Pure and the groups
+	// listed for X in the spec's "groups"). A function that cannot be translated is left out of its file (and so are its
+	// callers): only the proofs that mention it stop compiling, the other properties are not affected.
+	Group    string `json:"group,omitempty"`
+	NilGuard bool   `json:"nil_guard,omitempty"`
 	// VarInputs: package-level variables that the translated function takes as inputs instead of the dumped value
 	VarInputs []string `json:"var_inputs,omitempty"`
 }
@@ -58,6 +63,8 @@ type Spec struct {
 	// Errors fixes the numbering of error values (name as emitted, e.g. "Err_constants_ErrForbiddenParam"): position + 1.
 	// Errors that are not listed get the following numbers in alphabetical order. Harnesses rely on listed numbers.
 	Errors []string `json:"errors,omitempty"`
+	// Groups: group name -> names of the groups its file imports (besides Pure)
+	Groups map[string][]string `json:"groups,omitempty"`
 }
 
 type fail struct{ msg string }
@@ -178,6 +185,7 @@ func main() {
 	sb.WriteString("From ZV Require Import Prelude GoSem.\nFrom ZV.gen Require Consts.\nOpen Scope Z_scope.\n\n")
 	errs := map[string]bool{}
 	var bodies []string
+	var groupOf []string
 	failed := false
 	for i := range spec.Functions {
 		f := spec.Functions[i]
@@ -198,7 +206,9 @@ func main() {
 					panic(r)
 				}
 			}()
-			bodies = append(bodies, translate(p, f, known, errs))
+			b := translate(p, f, known, errs)
+			bodies = append(bodies, b)
+			groupOf = append(groupOf, f.Group)
 		}()
 	}
 	// error table
@@ -222,18 +232,57 @@ func main() {
 		fmt.Fprintf(&sb, "Definition %s : Z := %d.\n", e, num[e])
 	}
 	sb.WriteString("\n")
-	for _, b := range bodies {
-		sb.WriteString(b)
-		sb.WriteString("\n")
-	}
-	if failed {
-		os.Exit(1)
+	for i, b := range bodies {
+		if groupOf[i] == "" {
+			sb.WriteString(b)
+			sb.WriteString("\n")
+		}
 	}
 	if err := os.WriteFile(*outp, []byte(sb.String()), 0o644); err != nil {
 		fmt.Println(err)
 		os.Exit(2)
 	}
+	// one file per group (written even when empty, so that a stale definition never survives)
+	if spec.Groups == nil {
+		spec.Groups = map[string][]string{}
+	}
+	var gnames []string
+	for g := range spec.Groups {
+		gnames = append(gnames, g)
+	}
+	for _, g := range groupOf {
+		if g != "" {
+			if _, ok := spec.Groups[g]; !ok {
+				spec.Groups[g] = nil
+				gnames = append(gnames, g)
+			}
+		}
+	}
+	sort.Strings(gnames)
+	dir := filepath.Dir(*outp)
+	for _, g := range gnames {
+		var gb strings.Builder
+		gb.WriteString("(* GENERATED by go2coq from /repo's source on every run. Do not edit. *)\n")
+		gb.WriteString("From ZV Require Import Prelude GoSem.\nFrom ZV.gen Require Consts.\nFrom ZV.gen Require Export Pure.\n")
+		for _, dep := range spec.Groups[g] {
+			fmt.Fprintf(&gb, "From ZV.gen Require Export Pure%s.\n", dep)
+		}
+		gb.WriteString("Open Scope Z_scope.\n\n")
+		for i, b := range bodies {
+			if groupOf[i] == g {
+				gb.WriteString(b)
+				gb.WriteString("\n")
+			}
+		}
+		if err := os.WriteFile(filepath.Join(dir, "Pure"+g+".v"), []byte(gb.String()), 0o644); err != nil {
+			fmt.Println(err)
+			os.Exit(2)
+		}
+	}
 	fmt.Printf("go2coq: %d functions translated\n", len(bodies))
+	if failed {
+		fmt.Println("go2coq: some functions could not be translated (left out of their files, see above)")
+	}
 }
 
 func findFunc(p *packages.Package, name string) *ast.FuncDecl {
@@ -629,6 +678,22 @@ func isPkgLike(name string) bool {
 		return true
 	}
 	return false
+}
+
+// oraclePkg: name of a package-qualified oracle ("pkg.Func" in the spec) called by call, "" otherwise
+func (c *ctx) oraclePkg(call *ast.CallExpr) string {
+	if sel, ok := call.Fun.(*ast.SelectorExpr); ok {
+		if id, ok := sel.X.(*ast.Ident); ok {
+			if _, isPkg := c.info.Uses[id].(*types.PkgName); isPkg {
+				for _, o := range c.spec.Oracles {
+					if o == id.Name+"."+sel.Sel.Name {
+						return sel.Sel.Name
+					}
+				}
+			}
+		}
+	}
+	return ""
 }
 
 func call2name(c *ctx, call *ast.CallExpr) string {
@@ -1224,7 +1289,7 @@ func (c *ctx) knownCall(obj *types.Func, x *ast.CallExpr) gexp {
 				s += " " + nm
 				continue
 			}
-			if lf.expr == nil || (lf.pre != "" && lf.pre != "nonnil:") {
+			if lf.expr == nil || (lf.pre != "" && lf.pre != "nonnil:" && lf.pre != "len_") {
 				bad(x.Pos(), "callee %s has the input %s which a caller cannot supply", f.Coq, lf.name)
 			}
 			ne := substParams(lf.expr, repl)
@@ -1234,6 +1299,10 @@ func (c *ctx) knownCall(obj *types.Func, x *ast.CallExpr) gexp {
 			c.info.Types[ne] = types.TypeAndValue{Type: lf.typ}
 			if lf.pre == "nonnil:" {
 				s += " " + c.nonnil(ne)
+				continue
+			}
+			if lf.pre == "len_" {
+				s += " " + c.leaf(ne, "s64", "len_").e
 				continue
 			}
 			k := "big"
@@ -1404,6 +1473,20 @@ func (c *ctx) stmts(list []ast.Stmt) string {
 							v := c.expr(call.Args[1])
 							return guardWrap(v.g, "(let "+cn(id.Name)+" := (wrapU 64 "+v.e+") in "+c.stmts(rest)+")")
 						}
+					}
+				}
+			}
+		}
+		// logging has no effect on the result
+		if call, ok := x.X.(*ast.CallExpr); ok {
+			if sel, ok := call.Fun.(*ast.SelectorExpr); ok {
+				switch sel.Sel.Name {
+				case "Info", "Debug", "Error", "Warn", "Crit":
+					if rid := rootIdent(sel.X); rid != nil && (rid.Name == "log" || strings.HasSuffix(strings.ToLower(rid.Name), "log") || strings.HasSuffix(rid.Name, "Logger")) {
+						return c.stmts(rest)
+					}
+					if inner, ok := sel.X.(*ast.SelectorExpr); ok && (strings.HasSuffix(inner.Sel.Name, "Logger") || inner.Sel.Name == "log") {
+						return c.stmts(rest)
 					}
 				}
 			}
@@ -1760,13 +1843,15 @@ func (c *ctx) assign(x *ast.AssignStmt, rest []ast.Stmt) string {
 				if c.shadows(id) {
 					bad(id.Pos(), "declaration of %s shadows an outer variable (not supported)", id.Name)
 				}
-				if call, isCall := x.Rhs[0].(*ast.CallExpr); !(isCall && c.oracleName(call) != "") && c.rootParam(x.Rhs[0]) {
+				call, isCall := x.Rhs[0].(*ast.CallExpr)
+				isOracle := isCall && (c.oracleName(call) != "" || c.oraclePkg(call) != "")
+				if !isOracle && c.rootParam(x.Rhs[0]) {
 					if c.alias == nil {
 						c.alias = map[string]ast.Expr{}
 					}
 					c.alias[id.Name] = substParams(x.Rhs[0], c.alias)
-				} else if isCall && c.oracleName(call) != "" {
-					c.oracleN[call2name(c, call)]++ // a distinct result per call: the local's own name identifies it
+				} else if isOracle {
+					// a distinct result per call: the local's own name identifies it
 				} else {
 					bad(x.Pos(), "local %s of a type outside the subset is neither an oracle result nor hangs off a parameter", id.Name)
 				}
